@@ -17,7 +17,7 @@ ASSUMPTIONS = ["'memory attributed' is the library's own MemoryCache._estimate_o
                "the cache may serve an evicted value from its weak-reference table while the caller holds it (not a violation)"]
 COMPONENTS = {"real": ["MemoryCache, StorageBackendBase, filesystem data/metadata source", "tmpfs", "audit-hook read counter"],
               "stub": ["uuid4 (seeded)", "clock (virtual)", "mementos built by the harness"]}
-REACH = ["evictions_observed", "hits_without_io", "miss_path_taken", "oversize_bypassed", "forget_everything", "forgot_live"]
+REACH = ["reads_with_held_memento", "evictions_observed", "hits_without_io", "miss_path_taken", "oversize_bypassed", "forget_everything", "forgot_live"]
 
 
 def cases(tier, seed):
